@@ -48,6 +48,7 @@ def setup(ctx):
     ctx.require("monitor", "new_version_ok", 8)
     ctx.require("monitor", "old_version_attempts_client", 3)
     ctx.require("monitor", "faulty_material_starts", 27)
+    ctx.require("monitor", "wired_through_serve_command", 5)
     ctx.require("monitor", "plaintext_probes", 40)
     ctx.require("monitor", "plaintext_probes_waited_past_timeouts", 30)
 
@@ -535,6 +536,60 @@ def run(ctx):
             else:
                 pyctx = cap.get("pyctx") or cap["factory"]().ssl_context
                 lowered.append((label + ":seclevel0", "pyopenssl", pyctx))
+        # ---- what the command line `nauyaca serve ...` listens with (create_server stubbed): supplied and
+        # auto-generated certificates, client certificates asked for by flag / by the file / by a rule in the file
+        import tomli_w
+
+        from vf import tlsbench
+        from vf.sim import capture_serve
+        from vf.vloop import close_loop, new_loop
+
+        doc = os.path.join(base, "doc")
+        toml_req = os.path.join(base, "serve-req.toml")
+        with open(toml_req, "wb") as f:
+            tomli_w.dump({"server": {"host": "127.0.0.1", "port": 1965, "document_root": doc, "require_client_cert": True}}, f)
+        toml_rule = os.path.join(base, "serve-rule.toml")
+        with open(toml_rule, "wb") as f:
+            tomli_w.dump({"server": {"host": "127.0.0.1", "port": 1965, "document_root": doc}, "certificate_auth": {"paths": [{"prefix": "/admin/", "require_cert": True}]}}, f)
+        own_args = ["--cert", ident.certfile, "--key", ident.keyfile]
+        serve_cells = [("serve:supplied", [doc] + own_args), ("serve:supplied:--require-client-cert", [doc, "--require-client-cert"] + own_args),
+                       ("serve:supplied:file-requires-client-cert", ["--config", toml_req] + own_args), ("serve:supplied:file-rule-requires-cert", ["--config", toml_rule] + own_args),
+                       ("serve:auto", [doc]), ("serve:auto:--require-client-cert", [doc, "--require-client-cert"]), ("serve:auto:file-rule-requires-cert", ["--config", toml_rule])]
+        for label, args in serve_cells:
+            cap = capture_serve(args + ["--log-level", "CRITICAL"])
+            quiet_logs()
+            leaked += re.findall(r"(?:Certificate|Key): (\S+)", cap["output"])
+            if "factory" not in cap:
+                # no listener, no service: nothing for this property to object to (on the pinned tree the
+                # --require-client-cert flag ends in "unexpected keyword argument 'require_cert'", see DESIGN section 7)
+                ctx.count("outcome", f"serve-command-refused-to-start:{label}")
+                ctx.case(("serve-refused", label), True, sample={"context": label, "command": "nauyaca serve " + " ".join(str(a) for a in args), "output_tail": cap["output"][-120:]})
+                continue
+            ctx.count("monitor", "wired_through_serve_command")
+            loop = new_loop()
+            try:
+                sw = tlsbench.Sandwich(loop, None, captured=cap)
+                loop.do(sw.tcp.feed, b"gemini://localhost/\r\n")
+                loop.run_until(200.0)
+                out_b = bytes(sw.tcp.out)
+                ctx.count("monitor", "plaintext_probes")
+                wit = {"context": label, "command": "nauyaca serve " + " ".join(str(a) for a in args), "listener_ssl_argument": repr(cap["kwargs"].get("ssl"))[:50], "protocol_factory_makes": type(sw.server_proto).__name__,
+                       "sent_in_clear": b"gemini://localhost/\r\n", "server_wrote": out_b[:80]}
+                if re.match(rb"^[0-9][0-9] ", out_b) or re.search(rb"(^|\r\n)[1-6][0-9] [^\r\n]*\r\n", out_b):
+                    ctx.violation(f"plaintext-answered:context={label}", "the serve command came up answering a clear-text request", wit)
+                ctx.case(("serve-plaintext", label, bool(out_b)), True, sample=wit)
+            finally:
+                close_loop(loop)
+            if cap["kwargs"].get("ssl") is not None:
+                lowered.append((label + ":seclevel0", "stdlib", cap["kwargs"]["ssl"]))
+            else:
+                # (a PyOpenSSL context cannot be changed once a connection was made from it: a fresh one, same command)
+                cap2 = capture_serve(args + ["--log-level", "CRITICAL"])
+                quiet_logs()
+                leaked += re.findall(r"(?:Certificate|Key): (\S+)", cap2["output"])
+                pyctx = getattr(cap2["factory"](), "ssl_context", None) if "factory" in cap2 else None
+                if pyctx is not None:
+                    lowered.append((label + ":seclevel0", "pyopenssl", pyctx))
         for label, backend, c in lowered:
             if backend == "stdlib":
                 c.set_ciphers("ALL:@SECLEVEL=0")
